@@ -140,7 +140,7 @@ def chunk_bytes(cid: int, sz: int) -> bytes:
 def generate(rng: random.Random, tier: str) -> dict:
     layer = "B" if rng.random() < 0.06 else "A"
     mn = rng.choice([1, 10, 10, 10, 64])
-    min_part = rng.choice([1, 1, 1, 2, 7])
+    min_part = rng.choice([1, 1, 1, 2, 7, 0])
     wpc = rng.choice([1, 1, 2, 3, 5])
     spill = rng.choice([0, 1, mn - 1, mn, mn + 1, 2 * mn - 1, 2 * mn, 3 * mn + 1, 5 * mn, 10**9])
     spill = max(0, spill)
